@@ -33,7 +33,7 @@ def gen_tree(rng, n=None, feats=None):
             if mode in ("batch", "map"):
                 e["args"] = [rng.randrange(4) for _ in range(rng.randrange(0 if mode == "batch" else 1, 4))]
             if mode == "ctx":
-                e["ctx"] = rng.choice([{}, {"k": 1}, {"k": 2}, {"k": 1, "j": "a"}])
+                e["ctx"] = rng.choice([{}, {"k": 1}, {"k": 2}, {"k": 1, "j": "a"}, {"k": True}, {"k": 1.0}])
             if mode == "prevent":
                 # prevention is not part of the key: the prevented call gets an argument that no other edge can produce,
                 # so that its result (computed from refused nested calls) is never served to an ordinary call
